@@ -383,6 +383,8 @@ def transport_len_rules(ctx, rule):
       if (isinstance(el, ast.BinOp) and isinstance(el.op, ast.Add) and isinstance(el.left, ast.Name)
           and el.left.id in hdr_names and U(el.right) == '%s.getvalue()' % stream):
         okp = True
+      elif isinstance(el, ast.BinOp) and isinstance(el.op, ast.Add) and el.left is c and U(el.right) == '%s.getvalue()' % stream:
+        okp = True        # the header call written in place
     ctx.ob(rule, t, 'frame = header + stream bytes', okp,
            'the queued frame is not <header> + %s.getvalue()' % stream,
            'the bytes after the header must be exactly the measured body')
